@@ -429,6 +429,7 @@ static J gen_c16 (uint64_t seed, uint64_t idx)
 		if (g.rng.chance (0.3)) add_metadata (g, ops, f, 0.5) ;		// too late
 		if (has_header (f) && g.rng.chance (0.3)) { J c = mkop ("cmd") ; c ["id"] = "update_header" ; ops.push (c) ; }
 		ops.push (mkop ("close")) ;
+		bool empty_fork = false ;
 		if (shape >= 3)
 		{	// malformed input rejected at some parse depth
 			J c = mkop ("corrupt") ; J ed = J::arr () ;
@@ -451,9 +452,15 @@ static J gen_c16 (uint64_t seed, uint64_t idx)
 					ed = J::arr () ; ed.push (e) ;
 				}
 			}
+			// a side-car resource fork that exists but is empty (a copy tool created it and never filled it in): own stream
+			GenCtx gx (sub_seed (seed, "C16x", idx)) ;
+			if (needs_path_route (f) && gx.rng.chance (0.2))
+			{	c ["rsrc"] = 1 ; empty_fork = true ;
+				J e = J::obj () ; e ["kind"] = "truncate" ; e ["len"] = 0 ; e ["region"] = "any" ; ed = J::arr () ; ed.push (e) ;
+			}
 			c ["edits"] = ed ; ops.push (c) ;
 		}
-		J o2 = mkop ("open") ; o2 ["mode"] = g.rng.chance (0.85) ? "r" : "rw" ; o2 ["expect"] = "any" ; ops.push (o2) ;
+		J o2 = mkop ("open") ; o2 ["mode"] = g.rng.chance (0.85) ? "r" : "rw" ; o2 ["expect"] = "any" ; if (empty_fork && (idx & 1)) o2 ["mode"] = "rw" ; ops.push (o2) ;
 		add_getters (g, ops, 0.5) ;
 		if (g.rng.chance (0.6)) { J rd = mkop ("read") ; rd ["T"] = stype_name ((int) g.rng.below (4)) ; rd ["fr"] = 1 ; rd ["n"] = (long long) g.pick_frames (1, ch, cap) ; ops.push (rd) ; }
 		if (g.rng.chance (0.3)) { J q = mkop ("query") ; q ["id"] = k_queries [g.rng.below (17)] ; ops.push (q) ; }
